@@ -75,3 +75,64 @@ def random_mm(seed, n, base_id, k=4, sigma=(A, B, C, 120), depth=3):
         if p.well_formed():
             out.append(p)
     return out
+
+
+def random_menu(g, kind, nsets, size, allow_err=True, allow_switch=True):
+    opts = []
+    for reset in (False, True):
+        for sw in ([-1] + (list(range(nsets)) if (allow_switch and nsets > 0) else [])):
+            for ret in ((0, 1, 2) if (kind == "fal" and allow_err) else (0, 1)):
+                opts.append(D(reset, sw, ret))
+    g.rnd.shuffle(opts)
+    # bias: the first (default) decision is a plain return or continue most of the time
+    menu = opts[:size]
+    if g.rnd.random() < 0.5:
+        menu[0] = g.rnd.choice([D(False, -1, 1), D(False, -1, 0), D(True, -1, 0)])
+    return menu
+
+
+def random_general(seed, n, base_id, k=3, sigma=(A, B, C, 120), nsets=(1, 2, 2, 3), nrules=(0, 1, 2, 2, 3, 4),
+                   p_ctx=0.0, p_eoi=0.0, p_sugar=0.25, menu_sizes=(1, 1, 2, 2, 3), p_fal=0.3,
+                   depth=2, named=True, allow_switch=True, letters=(A, B, C), p_var=0.0):
+    """Random definitions with several rule sets, decision menus, optional contexts / `$` rules."""
+    g = Gen(seed, letters=letters)
+    out = []
+    tries = 0
+    while len(out) < n:
+        tries += 1
+        ns = g.rnd.choice(nsets) if named else 1
+        sets = []
+        env = []
+        for si in range(ns):
+            rules = []
+            nr = g.rnd.choice(nrules)
+            if si == 0 and nr == 0 and g.rnd.random() < 0.8:
+                nr = 2
+            for _ in range(nr):
+                re = g.rule_regex(g.rnd.choice([1, 1, 2, depth]))
+                if p_var and g.rnd.random() < p_var:
+                    vn = "v%d" % len(env)
+                    scope = g.rnd.choice([-1, si])
+                    env.append((vn, re, scope))
+                    re = g.rnd.choice([var(vn), cat(var(vn), g.atom()), plus(var(vn))])
+                if g.rnd.random() < p_eoi:
+                    re = g.with_eoi(re) if g.rnd.random() < 0.8 else eoi()
+                ctx = g.ctx_regex(g.rnd.choice([0, 1, 1, 2])) if g.rnd.random() < p_ctx else None
+                r = g.rnd.random()
+                if r < p_sugar / 2:
+                    rules.append(skip_rule(re, ctx))
+                elif r < p_sugar:
+                    rules.append(simple_rule(re, ctx))
+                else:
+                    kind = "fal" if g.rnd.random() < p_fal else "inf"
+                    menu = random_menu(g, kind, ns if named else 0, g.rnd.choice(menu_sizes),
+                                       allow_switch=allow_switch and named)
+                    rules.append({"re": re, "ctx": ctx, "kind": kind, "menu": menu})
+            name = "Init" if si == 0 else "S%d" % si
+            sets.append((name, rules))
+        p = Program(base_id + len(out), sets, env=env, sigma=sigma, k=k, named=named)
+        if p.well_formed():
+            out.append(p)
+        if tries > 50 * n + 100:
+            raise RuntimeError("generator cannot produce well-formed programs")
+    return out
